@@ -202,3 +202,22 @@ Proof.
     rewrite wrap_u64_id by (unfold two45, two18, two64 in *; lia). repeat split; lia.
   - assert (m < now) by (unfold two18 in *; lia). unfold two18 in *. repeat split; lia.
 Qed.
+
+(* ---------- mock.go ---------- *)
+Lemma mock_monotone : forall last now,
+  0 <= last -> extract_physical last <= now -> now < two45 -> extract_logical last + 1 < two18 ->
+  last < mock_get_ts last now /\ extract_physical (mock_get_ts last now) = now.
+Proof.
+  intros last now H0 Hp Hn Hl. unfold mock_get_ts. rewrite (go_time_exact now) by (unfold extract_physical, two18 in *; lia).
+  assert (E : extract_physical (now * two18) = now) by (unfold extract_physical, two18; lia). rewrite E.
+  destruct (extract_physical last =? now) eqn:C.
+  - rewrite wrap_u64_id by (unfold extract_physical, extract_logical, two18, two45, two64 in *; lia).
+    unfold extract_physical, extract_logical, two18 in *. lia.
+  - unfold extract_physical, two18 in *. lia.
+Qed.
+
+Lemma set_external_spec : forall ext cur nw e, set_external ext cur nw = Some e -> e = nw /\ ext <= e <= cur.
+Proof.
+  intros ext cur nw e H. unfold set_external in H.
+  destruct (cur <? nw) eqn:A; [discriminate|]. destruct (nw <? ext) eqn:B; [discriminate|]. injection H as <-. lia.
+Qed.
